@@ -548,6 +548,11 @@ def check_d1(eng, rep, ename, ev, chain, l, fieldname):
     val = ev.value
     if func.endswith(".__init__") and not target_obj[1]:
         return
+    if _borrowed_and_restored(ev, fieldname):
+        rep.holds("R4b", "C19.R4b-D1", func, "cache-lent-and-restored:" + fieldname,
+                  "the field is lent a value for the duration of one call and put back in a `finally` (saved before, "
+                  "restored whatever happens)")
+        return
     guarded = _has_none_guard(ev)
     foreign = []
     if val is not None:
@@ -570,6 +575,35 @@ def check_d1(eng, rep, ename, ev, chain, l, fieldname):
         rep.violation("R4b", "C19.R4b-D1", func, "cache-assign-unguarded:" + fieldname,
                       "cache field %s assigned without `is None` guard and with a non-fresh value" % fieldname,
                       site=ev.site.to_json(), path=[ename] + chain_strs(chain))
+
+
+def _borrowed_and_restored(ev, fieldname) -> bool:
+    """`saved = x._f` ... `x._f = <lent>` ... `try: .. finally: x._f = saved` in one function (the assignment judged is
+    the lending one or the restoring one): whatever the callee does with the lent value, the field holds its own value
+    again when the function returns - on every path, because the restore sits in a `finally`."""
+    fn = ev.func.node
+    node = ev.node
+    tgt = None
+    for st in ast.walk(fn):
+        if isinstance(st, ast.Assign) and (st is node or any(x is node for x in ast.walk(st))):
+            for t_ in st.targets:
+                if isinstance(t_, ast.Attribute) and t_.attr == fieldname:
+                    tgt = ast.unparse(t_)
+    if tgt is None and isinstance(node, ast.Attribute) and node.attr == fieldname:
+        tgt = ast.unparse(node)
+    if tgt is None:
+        return False
+    saved = {st.targets[0].id for st in ast.walk(fn) if isinstance(st, ast.Assign) and len(st.targets) == 1 and
+             isinstance(st.targets[0], ast.Name) and ast.unparse(st.value) == tgt}
+    if not saved:
+        return False
+    for tr in ast.walk(fn):
+        if isinstance(tr, ast.Try) and tr.finalbody:
+            for st in tr.finalbody:
+                if isinstance(st, ast.Assign) and any(ast.unparse(t_) == tgt for t_ in st.targets) and \
+                        isinstance(st.value, ast.Name) and st.value.id in saved:
+                    return True
+    return False
 
 
 def _under(d, obj):
